@@ -28,7 +28,7 @@ RULE_DOC = {
     'R2': '`for P in &S {` -> `for P in S.iter() {` for std hash collections (std defines the former as the latter)',
     'R3': '`for (i, &x) in E.iter().enumerate() {` -> `for i in 0..E.len() { let x = E[i];` (std semantics of enumerate over a slice)',
     'R4': 'String-typed message argument of an error constructor -> opaque msg(); the error variant is kept',
-    'R5': '`if C { continue; } REST` directly in a for body -> `if !(C) { REST }` (definition of continue)',
+    'R5': '`if C { continue; } REST` directly in a for body -> `if !(C) { REST }`; `if C { S; continue; } REST` -> `if C { S; } else { REST }` (definition of continue)',
     'R6': '`if let P = E && C { B }` without else -> `if let P = E { if C { B } }` (definition of a let chain)',
     'R8': '`let v = M.values().filter(|p| C).map(|q| E).min();` -> `let mut v = None; for (_, p) in M.iter() { if C { v = opt_min(v, E) } }` (std: minimum of the filtered, mapped values; opt_min is a verified helper)',
     'R9': '`let v: Vec<T> = M.iter().filter(|(a, b)| BODY).map(|(i, _)| *i).collect();` -> `let mut v = Vec::new(); for (a, b) in M.iter() { if BODY { v.push(*a) } }` (std semantics of filter/map/collect; the closure body is copied verbatim)',
@@ -42,6 +42,7 @@ RULE_DOC = {
     'R26': '`io::Error::new(io::ErrorKind::InvalidData, "..")` -> `io_invalid_data()` (opaque io::Error; only Ok/Err is observed)',
     'R30': '`let V = E.iter().map(|r| F).sum();` -> `let mut V: usize = 0; for r in E.iter() { V += F; }` (Iterator::sum over usize: the additions become overflow obligations)',
     'R31': 'std::io::Cursor over a byte slice: `io::Cursor::new(B)` -> `ByteCursor::new(B)`, `u64::from_le_bytes(buf)` (buf: [u8; 8]) -> `le_u64_of(buf)`; ByteCursor::read_exact is ASSUMED to behave as Cursor<&[u8]>::read_exact (8 bytes copied and consumed, or Err with nothing consumed)',
+    'R34': '`for X in M.values() {` -> `for (k__r, X) in M.iter() {` (std: values() is iter() projected to the value)',
     'R32': '`for X in M.values_mut() {` -> `let keys__N = map_keys(&M); for i__N in 0..keys__N.len() { let k__ = keys__N[i__N]; let X = M.get_mut(&k__).unwrap();` - values_mut visits every entry once; map_keys (body: `m.keys().copied().collect()`) is ASSUMED to list every key exactly once',
     'R33': '`M.retain(|_, X| P);` -> `let rkeys__N = map_keys(&M); for j__N in 0..rkeys__N.len() { let k__ = rkeys__N[j__N]; let keep__ = { let X = M.get(&k__).unwrap(); P }; if !keep__ { M.remove(&k__); } }` (std: retain removes exactly the entries for which the predicate is false; P verbatim, X bound immutably)',
     'R28': '`E.last().is_some_and(|c| P)` -> `match E.last() { Some(c) => P, None => false }` (definition of Option::is_some_and; P verbatim)',
@@ -316,6 +317,9 @@ class Piece:
         self.resub('R31', r'io::Cursor::new\(', 'ByteCursor::new(')
         self.resub('R31', r'u64::from_le_bytes\((\w+)\)', r'le_u64_of(\1)')
         return self
+
+    def R34(self):
+        return self.resub('R34', r'for (\w+) in ([\w\.]+)\.values\(\) \{', r'for (k__r, \1) in \2.iter() {')
 
     def R32(self):
         n = [0]
@@ -678,7 +682,7 @@ class Piece:
         return self
 
     def R5(self):
-        pat = re.compile(r'(?m)^([ \t]*)if (.+?) \{\n[ \t]*continue;\n[ \t]*\}\n')
+        pat = re.compile(r'(?m)^([ \t]*)if ([^\n]+?) \{\n((?:(?![ \t]*\}\n)[^\n]*\n)*?)[ \t]*continue;\n[ \t]*\}\n')
         text = self.text
         n = 0
         while True:
@@ -696,7 +700,12 @@ class Piece:
                 raise LostAnchor('rule R5 in %s: enclosing block end not found' % self.label)
             body = '\n'.join(lines[:k])
             tail = '\n'.join(lines[k:])
-            text = text[:m.start()] + '%sif !(%s) {\n' % (indent, m.group(2)) + body + '\n%s}\n' % indent + tail
+            pre = m.group(3)
+            if pre.strip():
+                # `if C { S; continue; } REST` -> `if C { S; } else { REST }`
+                text = text[:m.start()] + '%sif %s {\n%s%s} else {\n' % (indent, m.group(2), pre, indent) + body + '\n%s}\n' % indent + tail
+            else:
+                text = text[:m.start()] + '%sif !(%s) {\n' % (indent, m.group(2)) + body + '\n%s}\n' % indent + tail
             n += 1
         if 'continue;' in text:
             raise LostAnchor('rule R5 in %s: a `continue` of another shape remains' % self.label)
